@@ -16,6 +16,11 @@ Leg C2S : every recorded load (those of S2C and seeded random files with much wi
           TLC) is validated by TLC against TraceTrackModel.tla: L1 = Fidelity / ValidLoads / Rejection / TargetAsWritten /
           IncludedTextVerbatim on the recorded outcome, L2 = equality with Code(f) (error class and further attributes included).
           The real operation-type registry is validated as a table (L2).
+Timing  : a directed family writes every subset of the five timing attributes of a task (warmup-iterations, iterations,
+          warmup-time-period, time-period, ramp-up-time-period below / equal to / above the warm-up) on a plain task, on a parallel
+          element (inherited by its tasks) and split between the two; a failing Rejection for 'mixing' names every timing
+          attribute the mixing task carries (the ramp-up included), so that an accepted combination that is not one of the
+          recorded ones (known finding F13: exactly iterations + time-period, warmup-iterations + warmup-time-period) is a violation.
 Text    : half of all generated cases and a directed family (every text of trackgen.TEXT_POOL x not included / included with
           blanks / without blanks / with single quotes x first- / second-level part) write operation parameters whose text is
           special to re replacement templates, Jinja or JSON (regexps, Windows paths, \\uXXXX, \\n, \\g<0>, \\1, $1, \\", }} ...);
@@ -106,6 +111,40 @@ def directed_text_cases():
             txt = {"ops": [{"i": 1, "lit": tg.TEXT_POOL[k]}, {"i": 2, "lit": tg.TEXT_POOL[(k + 5) % n]}], "tasks": [{"c": 1, "e": 3, "i": 1, "lit": tg.TEXT_POOL[(k + 11) % n]}]}
             style = dict(tg.DEFAULT_STYLE, collect=collect, shuffle=k % 2 == 1, split_ops=k % 3 == 0, seed=k)
             cases.append({"id": "d%d-%s" % (k, name), "src": "directed-text", "f": F, "sel": "", "style": style, "via": "load_track" if k % 7 == 3 else "read", "label": "", "txt": txt})
+    return cases
+
+
+TIMING_VALUES = {"wi": 5, "it": 7, "wtp": 20, "tp": 30}
+
+
+def directed_timing_cases():
+    """Every subset of the five timing attributes a task can carry (warmup-iterations, iterations, warmup-time-period, time-period,
+    ramp-up-time-period; the ramp-up below / equal to / above the warm-up) x where they are written: on a plain task, on a
+    parallel element whose two tasks inherit them, iterations on the task and the time periods on its parallel element. The
+    generated sources reach a combination of three or more attributes only by accident (e.g. warmup-iterations + a sufficient
+    warmup-time-period + ramp-up-time-period and nothing else: one of the instances of 'mixing iterations with time periods')."""
+    cases = []
+    keys = ["wi", "it", "wtp", "tp", "ru"]
+    for mask in range(1, 1 << len(keys)):
+        sub = [k for b, k in enumerate(keys) if mask >> b & 1]
+        for ru in [10, 20, 40] if "ru" in sub and "wtp" in sub else [10]:
+            vals = {k: (ru if k == "ru" else TIMING_VALUES[k]) for k in sub}
+            for where in ("task", "par", "split"):
+                on_el = {} if where == "task" else vals if where == "par" else {k: v for k, v in vals.items() if k in ("wtp", "tp", "ru")}
+                on_task = {k: v for k, v in vals.items() if k not in on_el}
+                if where == "split" and (not on_el or not on_task):
+                    continue
+                F = _minimal(**on_task)
+                el = F["chals"][0]["sched"][0]
+                if where != "task":
+                    el["par"] = True
+                    for k, v in on_el.items():
+                        el[k] = {"v": v, "p": ""}
+                    t2 = json.loads(json.dumps(el["tasks"][0]))
+                    t2["name"] = {"v": "second", "p": ""}
+                    el["tasks"].append(t2)
+                cid = "dt-%s-%s%s" % (where, "+".join(sub), "-ru%d" % ru if "ru" in sub else "")
+                cases.append({"id": cid, "src": "directed-timing", "f": F, "sel": "", "style": dict(tg.DEFAULT_STYLE, seed=mask), "via": "read", "label": "", "txt": NOTEXT})
     return cases
 
 
@@ -328,7 +367,8 @@ def run(ctx, out):
     lap("simulation done")
     rnds = random_cases(ctx.seed + 1010, 300 if ctx.quick else 8000)
     directed = directed_text_cases()
-    allcases = [attach_texts(c, ctx.seed) for c in cases + sims + rnds] + directed
+    timing = directed_timing_cases()
+    allcases = [attach_texts(c, ctx.seed) for c in cases + sims + rnds] + directed + timing
 
     root = os.path.join(tlc.scratch("c10tracks"), "t")
     switches = probe_loader(root)
@@ -359,6 +399,7 @@ def run(ctx, out):
     out.extra["text_parameters"] = dict(text_stats, pool=len(tg.TEXT_POOL), directed_cases=len(directed))
     if text_stats["cases_with_text"] == 0 or text_stats["text_in_second_level_part"] == 0:
         out.vacuous.append("no generated track carries a text parameter (in a second-level part): IncludedTextVerbatim is vacuous")
+    out.extra["directed_timing_cases"] = {"cases": len(timing), "loaded": sum(1 for c in timing if item_of[c["id"]]["out"]["ok"])}
     out.extra["via_load_track"] = sum(1 for c in allcases if c["via"] == "load_track")
     for pick in (cases[len(cases) // 2], sims[len(sims) // 2] if sims else None, rnds[0] if rnds else None):
         if pick is not None:
